@@ -1,11 +1,15 @@
 package main
 
 // Domain "names" (C13): file names are unique, also when several workers of one writer (or several
-// writers sharing the generator) ask the name generator at the same time.  No model run.
+// writers sharing the generator) ask the name generator at the same time.  The executable statement
+// is what Model/Serial.v proves of one atomic add per call (C13_names_distinct_under_every_schedule,
+// C13_int32_serials_distinct_within_2_32_calls): starting from serial c the n calls are handed
+// c+1 .. c+n (int32 arithmetic), each once, and every caller sees its own serials in that order.
 
 import (
 	"bufio"
 	"fmt"
+	"math"
 	"math/rand"
 	"sync"
 
@@ -16,14 +20,19 @@ func init() { domains["names"] = &domain{gen: genNames, run: runNames} }
 
 func genNames(r *rand.Rand, n int, tier string, out *bufio.Writer) {
 	for i := 0; i < n; i++ {
-		fmt.Fprintf(out, "names %d %d %d\n", 1+r.Intn(6), 50+r.Intn(400), r.Intn(2))
+		c0 := pick(r, []int{0, 0, 0, 7, -3, math.MaxInt32 - 100, math.MaxInt32 - 1, math.MinInt32})
+		fmt.Fprintf(out, "names %d %d %d %d\n", 1+r.Intn(6), 50+r.Intn(400), r.Intn(2), c0)
 	}
 }
 
 func runNames(toks []string) (string, string) {
 	t := &tokens{t: toks}
 	workers, each, custom := t.nextInt(), t.nextInt(), t.nextInt() == 1
-	gen := &gowarc.PatternNameGenerator{Directory: "d", Prefix: "p"}
+	c0 := int32(0)
+	if !t.done() {
+		c0 = int32(t.nextInt())
+	}
+	gen := &gowarc.PatternNameGenerator{Directory: "d", Prefix: "p", Serial: c0}
 	if custom {
 		gen.Pattern = "%{prefix}s-%{serial}d.%{ext}s"
 		gen.Extension = "warc"
@@ -55,5 +64,27 @@ func runNames(toks []string) (string, string) {
 			seen[nme] = true
 		}
 	}
-	return fmt.Sprintf("n=%d", total), "OK"
+	obs := fmt.Sprintf("n=%d", total)
+	if custom {
+		// the serials: c0+1 .. c0+n in int32 arithmetic, each once; increasing for every caller
+		got := map[uint32]bool{}
+		for g, l := range names {
+			last := uint32(0)
+			for _, nme := range l {
+				var s int32
+				if _, err := fmt.Sscanf(nme, "p-%d.warc", &s); err != nil {
+					return obs, "FAIL:bad-name:the name " + nme + " does not follow the pattern %{prefix}s-%{serial}d.%{ext}s"
+				}
+				d := uint32(s) - uint32(c0) // position of the serial after c0
+				if d == 0 || d > uint32(total) || got[d] {
+					return obs, fmt.Sprintf("FAIL:bad-name:serial %d is not one of the %d serials after %d, each handed out once", s, total, c0)
+				}
+				if d <= last {
+					return obs, fmt.Sprintf("FAIL:bad-name:caller %d got serial %d after a later one", g, s)
+				}
+				got[d], last = true, d
+			}
+		}
+	}
+	return obs, "OK"
 }
